@@ -399,7 +399,7 @@ _RE_TRACE = re.compile(r'<<"TRACE", (\d+), (\d+), (\d+)>>')
 
 def validate_traces(spec_dir, module, traces, tag, constants=None,
                     invariants=('TraceInv',), diag=(), timeout=900,
-                    spec='TraceSpec'):
+                    spec='TraceSpec', progress='Progress', report='Report'):
     """Validate recorded `traces` (list of JSON-able dicts with an 'ev' list)
     against spec_dir/module.tla (a *Trace module following the conventions of
     specs/Transport/RekeyTrace.tla: TraceSpec, Progress, Report, constant
@@ -421,7 +421,7 @@ def validate_traces(spec_dir, module, traces, tag, constants=None,
         lines += [f'  Strict = {"TRUE" if strict else "FALSE"}',
                   f'SPECIFICATION {spec}', 'CHECK_DEADLOCK FALSE']
         if constraint:
-            lines += ['CONSTRAINT Progress', 'POSTCONDITION Report']
+            lines += [f'CONSTRAINT {progress}', f'POSTCONDITION {report}']
         lines += [f'INVARIANT {i}' for i in invs]
         with open(os.path.join(spec_dir, name), 'w') as f:
             f.write('\n'.join(lines) + '\n')
